@@ -624,6 +624,18 @@ SendStep(st, evtype, gv, eng) ==
      IF st.status # "running" THEN Enqueue(st, PlainEv(evtype), eng)
      ELSE SyncDrain(Enqueue(st, PlainEv(evtype), eng), gv, 1, eng)
 
+\* send_events([e1, e2]): every event is queued first, then the queue is drained
+BatchStep(st0, evs, gv, eng) ==
+  LET st == Log(st0, L("batch", evs[1], evs[2], {}))     \* the harness marks the call
+  IN IF eng = "async" THEN
+        LET RECURSIVE PutAll(_, _)
+            PutAll(s, i) == IF i > Len(evs) THEN s
+                            ELSE PutAll([s EXCEPT !.queue = Append(@, PlainEv(evs[i]))], i + 1)
+        IN IF ~Accepts(st, "async") THEN st ELSE AsyncLoop(PutAll(st, 1), gv, D.fuel)
+     ELSE
+        IF st.status # "running" THEN st
+        ELSE SyncDrain([st EXCEPT !.queue = @ \o [i \in 1..Len(evs) |-> PlainEv(evs[i])]], gv, 1, eng)
+
 CanStep(st, evtype, gv) ==
   LET r == Select(st.config, PlainEv(evtype), gv, "can")
   IN [st EXCEPT !.out = @ \o r.log \o <<L("can", IF r.err = NoErr /\ r.sel # <<>> THEN "T" ELSE "F", "", {})>>]
